@@ -140,6 +140,8 @@ def check_C03(tier, seed):
     run_stocks(out, "C03", tier)
     from .checks_relational import run_relational
     run_relational(out, "C03", tier)
+    from .checks_stock_traces import run_stock_traces
+    run_stock_traces(out, "C03", tier)
     out.assumptions += COMMON_ASSUMPTIONS + [
         "scipy-based lifetime models enter through the relational run: conservation is evaluated on the implementation's outputs"]
     return out.finish(rule="one vector per (configuration, stock class, driver); TLC computes all tables as exact rationals and checks "
@@ -151,6 +153,8 @@ def check_C09(tier, seed):
     run_stocks(out, "C09", tier)
     from .checks_relational import run_relational
     run_relational(out, "C09", tier)
+    from .checks_stock_traces import run_stock_traces
+    run_stock_traces(out, "C09", tier)
     out.assumptions += COMMON_ASSUMPTIONS
     return out.finish(rule="as C03; Prop_C09 (totals, triangularity, cohort share, cohort conservation, monotonicity) TLC-checked on the model; "
                            "get_stock_by_cohort / get_outflow_by_cohort compared with the exact tables")
@@ -161,6 +165,8 @@ def check_C10(tier, seed):
     run_stocks(out, "C10", tier)
     from .checks_relational import run_relational
     run_relational(out, "C10", tier)
+    from .checks_stock_traces import run_stock_traces
+    run_stock_traces(out, "C10", tier)
     out.assumptions += COMMON_ASSUMPTIONS + ["stock-driven vectors only for tables whose diagonal is non-zero (Solvable)"]
     return out.finish(rule="stock-driven vectors: the prescribed stock is the inflow-driven stock of an integer inflow; Prop_C10 (inverse) "
                            "TLC-checked; both solvers replayed")
@@ -171,6 +177,8 @@ def check_C16(tier, seed):
     run_stocks(out, "C16", tier)
     from .checks_relational import run_relational
     run_relational(out, "C16", tier)
+    from .checks_stock_traces import run_stock_traces
+    run_stock_traces(out, "C16", tier)
     out.assumptions += COMMON_ASSUMPTIONS + [
         "causality, scaling, label independence, impulse response and shift invariance are TLC-checked theorems of the model (Prop_C16); "
         "on the implementation they are evaluated between related runs (all lifetime models incl. the scipy-based ones)"]
@@ -182,6 +190,8 @@ def check_C08(tier, seed):
     out = Outcome("C08", tier, seed)
     vectors = run_stocks(out, "C08", tier)
     run_structure(out, "C08", tier, vectors)
+    from .checks_stock_traces import run_stock_traces
+    run_stock_traces(out, "C08", tier)
     out.assumptions += COMMON_ASSUMPTIONS + [
         "ASSUMPTION DISCHARGE (numeric, not model checking): closed-form survival functions of the normal / folded normal / log-normal / "
         "Weibull distributions are evaluated with Python's math module; the ten Gauss-Lobatto rules are recomputed from Legendre "
